@@ -45,6 +45,15 @@ def mutants(r, img, quick):
             for ext in (0, 1, w + 1, 2**31, 2**32, 2**63, 2**64 - 1, 10**6):
                 if ext != w:
                     out.append(img[:p] + u64(ext) + img[p + 8:])
+    # re-encodings of big-integer fields: a `Small` (tag 1 + 8 bytes) rewritten as `Large` with 1..3 limbs (the value, then zero limbs) — the
+    # same number in a representation fend never writes itself — and every such field set to zero in each representation
+    # (a denominator that is zero under ANY encoding is not a number)
+    for p in range(0, L - 8):
+        if img[p] == 1 and int.from_bytes(img[p + 1:p + 9], "big") < 2**40:
+            v = img[p + 1:p + 9]
+            for limbs in ([v], [v, b"\0" * 8], [v, b"\0" * 8, b"\0" * 8], [b"\0" * 8], [b"\0" * 8] * 2, []):
+                out.append(img[:p] + bytes([2]) + u64(len(limbs)) + b"".join(limbs) + img[p + 9:])
+            out.append(img[:p] + bytes([1]) + b"\0" * 8 + img[p + 9:])
     return out
 
 def nesting(depth):
@@ -137,7 +146,7 @@ def run(ctx):
                                             "model": model[i][:80]})
     dist["loaded_and_resaved_equal"] = same
     ctx.record_stream("images", "valid images from statement histories, then every truncation point, single-byte substitutions at every position of short images "
-                      "(sampled in long ones), every small length field set to 0/1/2^31/2^32/2^63/2^64-1, random bytes, extreme-length skeletons, nesting ramps; "
+                      "(sampled in long ones), every big-integer field re-encoded (Small as Large with trailing zero limbs, zero in every representation), every small length field set to 0/1/2^31/2^32/2^63/2^64-1, random bytes, extreme-length skeletons, nesting ramps; "
                       "real Context::deserialize_variables under a counting allocator + 4 GiB address-space limit, then every loaded variable printed/applied/"
                       "converted and the context saved again; class (ok / DeserializationError / I/O error) and reloaded table vs the Lean model",
                       len(uniq), len(uniq), dist, [l[:120] for l in lines[:3]], time.time() - t0)
